@@ -232,17 +232,19 @@ def check_instance(rep, v, text, kind):
 
 
 def check_parser(rep, drv, text, what="text"):
-    """Parse.parse_expr (the verified expression parser) on the tokens of every expression of a text Lark accepts
-    must give the expression Lark's tree stands for; what it parses must survive printing and parsing again"""
+    """Lex.lex + Parse.parse_expr (the verified lexer and expression parser) on the characters of every expression of a text Lark
+    accepts must give the expression Lark's tree stands for; the tokens must be those of the harness's regular expression; what is
+    parsed must survive printing and parsing again"""
     cases = [c_ for c_ in impl.expression_cases(text) if c_[3] is not None]   # None: a call shape outside the modelled language
     if not cases:
         return 0
-    r = drv.ask(["parsetoks", [[toks, want] for _, _, toks, want in cases]])
+    r = drv.ask(["parsestr", [[core.Q(src), want, toks if toks is not None else "none"] for _, src, toks, want in cases]])
     for (name, src, toks, want), res in zip(cases, r["results"]):
-        if res["verdict"] != "agree" or not res["roundtrip"]:
-            rep.violation(f"the parser mirror and Lark disagree on the right-hand side of {name} in the {what}: {res['verdict']}"
-                          + ("" if res["roundtrip"] else "; print / parse round trip fails") + f"  [{src[:80]}]",
-                          {"kind": "correspondence", "relation": "Parse.parse_expr vs Lark + expressions.build_expression (shape)",
+        if res["verdict"] != "agree" or not res["roundtrip"] or not res["lexagree"]:
+            rep.violation(f"the lexer / parser mirror and Lark disagree on the right-hand side of {name} in the {what}: {res['verdict']}"
+                          + ("" if res["roundtrip"] else "; print / parse round trip fails")
+                          + ("" if res["lexagree"] else "; the token sequences of Lex.lex and of the harness differ") + f"  [{src[:80]}]",
+                          {"kind": "correspondence", "relation": "Lex.lex + Parse.parse_expr vs Lark + expressions.build_expression (shape)",
                            "text": text, "expression": src, "failing_input": None}, failing_input_found=False)
             return len(cases)
     rep.count("expressions_parsed_like_lark", len(cases))
